@@ -11,6 +11,7 @@ from vf.ref.pipeline import PipeRef
 
 BASE = rv32.MINADDR
 M = rv32.M
+STATE_CAP = 400000
 
 
 def lockstep(prog, regs, words, maxcycles, hazard, want=("cycle", "retire", "final", "stalls")):
@@ -170,7 +171,7 @@ def impl_to_cycle(prefix, regs, words, hazard, cycles, symidx):
 
 def fp_expand(shard):
     """Expand a chunk of frontier prefixes by every symbol; one transition = one prefix executed on both sides."""
-    seed, big, hazard, prefixes = shard
+    (seed, big, hazard), prefixes = shard
     F, regs, words = f_alphabet(seed, big)
     symidx = {s: i for i, s in enumerate(F)}
     p = Partial()
@@ -187,6 +188,8 @@ def fp_expand(shard):
                 p.nontrivial += 1
                 for e in ref.events:
                     p.counters["fp-" + e] += 1
+            if ikey == "impl-key-unavailable":
+                p.counters["fp-impl-key-unavailable"] += 1
             if problem is None and iret != ret:
                 k = next((i for i, (a, b) in enumerate(zip(ret, iret)) if a != b), min(len(ret), len(iret)))
                 problem = f"retirements (address, cycle) differ from position {k}: documented {ret[k:k + 3]} simulator {iret[k:k + 3]}"
@@ -196,63 +199,26 @@ def fp_expand(shard):
                 p.violation(dict(oracle="fixed-point", field="retire-time", hazard=hazard),
                             case_of(q, regs, words, cyc + 8, hazard), f"[{rv.prog_text(q)}] hazard_detection={hazard}: {problem}",
                             size=(len(q), tuple(pre) + (si,)))
-            out.append((tuple(pre) + (si,), digest((key, ikey)), digest(key), key == ("exit",), ikey == "impl-key-unavailable"))
+            out.append((tuple(pre) + (si,), digest((key, ikey)), key == ("exit",)))
     p.notes["out"] = out
     return p
 
 
 def fixed_point(ctx, seed, big, hazard, maxdepth, name):
     """Level-synchronous BFS over program prefixes until no new (reference, implementation) control state appears."""
+    from vf.engine.bfs import bfs
+
     t0 = time.time()
     F, regs, words = f_alphabet(seed, big)
-    seen = set()
-    refseen = set()
-    frontier = [()]
-    total = Partial()
-    depth = 0
-    closed = False
-    unavailable = False
-    # initial state
     symidx = {s: i for i, s in enumerate(F)}
     key0, _c, _r, _ref = ref_to_pause([], regs, words, hazard, symidx)
     ik0, _ir, _p = impl_to_cycle([], regs, words, hazard, 0, symidx)
-    seen.add(digest((key0, ik0)))
-    refseen.add(digest(key0))
-    while frontier and depth < maxdepth:
-        depth += 1
-        parts = chunks(frontier, max(16, min(256, len(frontier) // 4 + 1)))
-        nxt = []
-        results = []
-        # collect per-shard outputs (Partial.merge keeps only the first 'out'; gather explicitly)
-        from vf.engine import core
-
-        if core.JOBS > 1 and len(parts) > 1:
-            for st, part in core.pool().imap_unordered(core._run_shard, [(fp_expand, (seed, big, hazard, c)) for c in parts], chunksize=1):
-                if st == "err":
-                    raise InternalError(part)
-                results.append(part)
-        else:
-            for c in parts:
-                results.append(fp_expand((seed, big, hazard, c)))
-        allout = []
-        for part in results:
-            allout.extend(part.notes.pop("out"))
-            total.merge(part)
-        for pre, dg, rdg, is_exit, unav in sorted(allout):
-            unavailable = unavailable or unav
-            refseen.add(rdg)
-            if dg not in seen:
-                seen.add(dg)
-                if not is_exit:
-                    nxt.append(pre)
-        frontier = nxt
-        print(f"[{ctx.prop}] {name}: depth {depth} states {len(seen)} frontier {len(frontier)} transitions {total.transitions}", flush=True)
-    if not frontier:
-        closed = True
-    total.states = len(seen)
+    res = bfs(fp_expand, (seed, big, hazard), [digest((key0, ik0))], [()], maxdepth, STATE_CAP, label=f"[{ctx.prop}] {name}")
+    total = res.part
     total.sample(dict(kind="fixed-point-prefix", prog=[list(F[0]), list(F[3]), list(F[10])], hazard=hazard))
-    if not closed:
+    if not res.closed:
         ctx.exhaustive = False
-    ctx.space(name, total, t0, alphabet=len(F), hazard_detection=hazard, closed=closed, depth=depth,
-              reference_states=len(refseen), implementation_key="unavailable (reference half only)" if unavailable else "used")
-    return closed
+    unavailable = total.counters.get("fp-impl-key-unavailable", 0) > 0
+    ctx.space(name, total, t0, alphabet=len(F), hazard_detection=hazard, closed=res.closed, depth=res.depth,
+              stopped_early=res.stopped, implementation_key="unavailable (reference half only)" if unavailable else "used")
+    return res.closed
